@@ -351,7 +351,11 @@ func raceClients() []raceClient {
 				func(_ int, x *xorshift) { ctr.SetValue(x.IntN(40)) },
 				func(_ int, x *xorshift) { ctr.SwapValue(func(v int) int { return v + x.IntN(3) }) },
 				func(int, *xorshift) { ctx, cancel := short(); defer cancel(); _, _ = ctr.WaitValue(ctx, nil) },
-				func(_ int, x *xorshift) { ctx, cancel := short(); defer cancel(); _, _ = ctr.WaitValueChange(ctx, x.IntN(40), nil) },
+				func(_ int, x *xorshift) {
+					ctx, cancel := short()
+					defer cancel()
+					_, _ = ctr.WaitValueChange(ctx, x.IntN(40), nil)
+				},
 				func(int, *xorshift) { ctx, cancel := short(); defer cancel(); _ = ctr.WaitValueEmpty(ctx, nil) },
 				func(_ int, x *xorshift) {
 					ctx, cancel := short()
@@ -395,7 +399,11 @@ func raceClients() []raceClient {
 			}
 			return []func(int, *xorshift){
 				func(_ int, x *xorshift) { _ = ccall.CallConcurrently(bg, mk(x, 2+x.IntN(5))...) },
-				func(_ int, x *xorshift) { ctx, cancel := short(); defer cancel(); _ = ccall.CallConcurrently(ctx, mk(x, 3)...) },
+				func(_ int, x *xorshift) {
+					ctx, cancel := short()
+					defer cancel()
+					_ = ccall.CallConcurrently(ctx, mk(x, 3)...)
+				},
 				func(_ int, x *xorshift) { _ = ccall.CallConcurrently(bg, mk(x, 1)...) },
 				func(int, *xorshift) { _ = ccall.CallConcurrently(bg, nil, nil) },
 			}, func() {}
@@ -692,7 +700,11 @@ func raceClients() []raceClient {
 				},
 				func(int, *xorshift) { c2, cc := short(); defer cc(); _, _ = p.Await(c2) },
 				func(int, *xorshift) { c2, cc := short(); defer cc(); _, _ = p.AwaitWithErrCh(c2, make(chan error)) },
-				func(int, *xorshift) { c2, cc := short(); defer cc(); _, _ = p.AwaitWithCancelCh(c2, make(chan struct{})) },
+				func(int, *xorshift) {
+					c2, cc := short()
+					defer cc()
+					_, _ = p.AwaitWithCancelCh(c2, make(chan struct{}))
+				},
 				func(int, *xorshift) { c2, cc := context.WithCancel(bg); cc(); _, _ = p.Await(c2) },
 			}, func() {}
 		}})
@@ -715,7 +727,11 @@ func raceClients() []raceClient {
 				func(int, *xorshift) { _, _ = pc.GetPromise() },
 				func(int, *xorshift) { c2, cc := short(); defer cc(); _, _ = pc.Await(c2) },
 				func(int, *xorshift) { c2, cc := short(); defer cc(); _, _ = pc.AwaitWithErrCh(c2, make(chan error)) },
-				func(int, *xorshift) { c2, cc := short(); defer cc(); _, _ = pc.AwaitWithCancelCh(c2, make(chan struct{})) },
+				func(int, *xorshift) {
+					c2, cc := short()
+					defer cc()
+					_, _ = pc.AwaitWithCancelCh(c2, make(chan struct{}))
+				},
 				func(g int, _ *xorshift) {
 					mu.Lock()
 					p := cur
